@@ -2,6 +2,7 @@ import DawgieVerif.Model.Sexp
 import DawgieVerif.Model.SchedIO
 import DawgieVerif.Model.ReprocessIO
 import DawgieVerif.Model.WorkerIO
+import DawgieVerif.Model.HandIO
 
 open DawgieVerif
 
@@ -10,6 +11,7 @@ def dispatch (x : Sx) : Sx :=
   | Sx.list (Sx.atom "sched" :: rest) => Sched.handle rest
   | Sx.list (Sx.atom "repro" :: rest) => Reprocess.handle rest
   | Sx.list (Sx.atom "worker" :: rest) => Worker.handle rest
+  | Sx.list (Sx.atom "hand" :: rest) => Hand.handle rest
   | _ => Sx.err "model"
 
 partial def loop (h : IO.FS.Stream) (out : IO.FS.Stream) : IO Unit := do
